@@ -736,7 +736,7 @@ def w_n1():
     return mk_case(3, edb, rules, "witness-N1")
 
 
-def w_n20():
+def w_n60():
     X, S, E, E2 = V(0), 10, 11, 12
     edb = [{"p": E0, "args": [CONSTS[1]], "iv": [ts(1), ts(2)]}, {"p": E1, "args": [CONSTS[1]], "iv": [ts(5), ts(6)]}]
     rules = [{"p": H5, "args": [X], "ht": [var(S), var(E2)],
@@ -773,7 +773,7 @@ def probes(ck, cov):
                       "9 temporal facts derived under WithCreatedFactLimit(3) without an error", "case": c, "impl": out})
     for k in known_for("C14"):
         if k["id"] == "N60":
-            c = w_n20()
+            c = w_n60()
             out = ck.run_go("c14_prog", [c])[0].get("out", {})
             if out.get("facts"):
                 ck.known("N60 an annotation variable that is already bound is not compared with the fact's end point when "
